@@ -38,19 +38,46 @@ def hexs(b):
     return b.hex() if b else "-"
 
 
+# ---------------------------------------------------------------------------------------------- data of a hist line
+class Stream:
+    """the bytes a hist line is about: dense hex, or the sparse virtual stream V<len>@<off>:<hex>@... (zero background)"""
+
+    def __init__(self, spec):
+        if spec.startswith("V"):
+            parts = spec[1:].split("@")
+            self.n = int(parts[0])
+            self.exts = [(int(o), bytes.fromhex(h)) for o, h in (e.split(":") for e in parts[1:])]
+        else:
+            d = bytes.fromhex(spec) if spec != "-" else b""
+            self.n, self.exts = len(d), [(0, d)]
+
+    def get(self, pos, k):
+        k = max(0, min(k, self.n - pos))
+        out = bytearray(k)
+        for o, d in reversed(self.exts):          # the first extent listed wins (as in the harness and the model)
+            a, b = max(pos, o), min(pos + k, o + len(d))
+            if a < b:
+                out[a - pos:b - pos] = d[a - o:b - o]
+        return bytes(out)
+
+
+def vspec(n, exts):
+    return "V%d" % n + "".join("@%d:%s" % (o, d.hex()) for o, d in exts)
+
+
 # ---------------------------------------------------------------------------------------------- ideal cursor
 def ideal_hist(line, impl):
     """Specification side for a `hist` line: an ideal forward-only cursor over the same bytes.
     Returns (ok, why).  Nothing is claimed after the first operation that leaves the stream."""
     t = line.split()
-    data = bytes.fromhex(t[3]) if t[3] != "-" else b""
+    st = Stream(t[3])
     ops = [o for o in t[4].split(";") if o]
     if impl in ("panic", "missing", "timeout", "unknown-stack") or impl.startswith("unknown"):
         return False, "no observation: %s" % impl
     outs = impl.split(";")
     if len(outs) != len(ops):
         return False, "%d answers for %d operations" % (len(outs), len(ops))
-    pos, n = 0, len(data)
+    pos, n = 0, st.n
     for i, (o, r) in enumerate(zip(ops, outs)):
         c = o[0]
         if c == "r":
@@ -60,7 +87,7 @@ def ideal_hist(line, impl):
             b = bytes.fromhex(r[2:]) if r != "b:-" else b""
             if len(b) > k:
                 return False, "op %d %s: more bytes than asked" % (i, o)
-            if data[pos:pos + len(b)] != b or pos + len(b) > n:
+            if st.get(pos, len(b)) != b or pos + len(b) > n:
                 return False, "op %d %s at %d: bytes %s are not the next bytes of the stream" % (i, o, pos, r)
             if (len(b) == 0) != (k == 0 or pos >= n):
                 return False, "op %d %s at %d of %d: %s (early/late end-of-stream)" % (i, o, pos, n, r)
@@ -69,7 +96,7 @@ def ideal_hist(line, impl):
             k = int(o[1:])
             if pos + k > n:
                 return True, "left the stream at op %d" % i
-            if r != "b:" + hexs(data[pos:pos + k]):
+            if r != "b:" + hexs(st.get(pos, k)):
                 return False, "op %d %s at %d: %s" % (i, o, pos, r)
             pos += k
         elif c == "s":
@@ -90,7 +117,7 @@ def ideal_hist(line, impl):
 
 def stays_within(line):
     t = line.split()
-    n = len(t[3]) // 2 if t[3] != "-" else 0
+    n = Stream(t[3]).n
     pos = 0
     for o in t[4].split(";"):
         if not o:
@@ -171,7 +198,7 @@ def coq_sync_reader(st, caps, data):
 
 
 def is_async(st):
-    return any(x in st for x in ("fcursor", "ain(", "pc)", "native"))
+    return any(x in st for x in ("fcursor", "ain(", "pc)", "native", "avcur"))
 
 
 # ---------------------------------------------------------------------------------------------- MP4 inputs
